@@ -200,4 +200,33 @@ __CPROVER_ensures((RET == CIF_OK && element == NULL) ==> (g_last_freed == g_el_b
 __CPROVER_ensures((RET != CIF_OK && value->kind == CIF_LIST_KIND) ==> LIST_UNCHANGED(value))
 ;
 
+
+/* ---- rounding helpers of the decimal <-> double conversions (C10) --------------------------------------------------- */
+#ifndef MAXW
+#define MAXW 6            /* modelled number of base-10^9 words of the bignum tail */
+#endif
+uint32_t *g_words;        /* ghost: the bignum (set by the harness) */
+#define WIDX(p) (OFF(p) / sizeof(uint32_t))
+#define WORDS_OK(p, q) (__CPROVER_same_object(p, g_words) && __CPROVER_same_object(q, g_words) && OFF(p) % 4 == 0 && OFF(q) % 4 == 0 \
+        && WIDX(p) <= WIDX(q) && WIDX(q) < MAXW && __CPROVER_r_ok(g_words, MAXW * sizeof(uint32_t)))
+/* all words strictly after position a up to and including position b are zero */
+#define TAIL_ZERO_V(v, a, b) __CPROVER_forall { size_t v; (v < MAXW) ==> ((v > (a) && v <= (b)) ==> g_words[v] == 0) }
+#define TAIL_ZERO(a, b) TAIL_ZERO_V(_w, a, b)
+#define SPEC_HALF 500000000u   /* one half of the bignum base 10^9 */
+
+static int is_zero(uint32_t check_value, uint32_t *work_dig, uint32_t *lsd)
+__CPROVER_requires(WORDS_OK(work_dig, lsd))
+__CPROVER_assigns()
+__CPROVER_ensures((RET != 0) == (check_value == 0 && TAIL_ZERO(WIDX(work_dig), WIDX(lsd))))
+__CPROVER_ensures(RET == 0 || RET == 1)
+;
+
+/* sign of (tail - one half of the preceding digit): the tail is check_value followed by the words after work_dig up to lsd */
+static int compare_half(uint32_t check_value, uint32_t *work_dig, uint32_t *lsd)
+__CPROVER_requires(WORDS_OK(work_dig, lsd))
+__CPROVER_assigns()
+__CPROVER_ensures(check_value < SPEC_HALF ==> RET < 0)
+__CPROVER_ensures((check_value == SPEC_HALF && TAIL_ZERO(WIDX(work_dig), WIDX(lsd))) ==> RET == 0)
+__CPROVER_ensures((check_value > SPEC_HALF || (check_value == SPEC_HALF && !TAIL_ZERO_V(_w2, WIDX(work_dig), WIDX(lsd)))) ==> RET > 0)
+;
 #endif
